@@ -121,7 +121,7 @@ def check_c11(pid, tier, replay):
     beh, simr = model_behaviours(200 if q else 2000, 30 if q else 60)
     vc.log("[C11] %d TLC-generated walks %.0fs" % (len(beh), time.time() - t0))
     # legs B and C
-    sweeps = gen_level.sweep_histories([0, 1, 64, 100, 127] if q else [0, 1, 63, 64, 100, 126, 127], variants=2 if q else 4)
+    sweeps = gen_level.sweep_histories([0, 1, 64, 100, 126, 127] if q else [0, 1, 2, 32, 63, 64, 65, 100, 126, 127], variants=2 if q else 4)
     bound = gen_level.boundary_histories()
     ex = list(gen_level.exhaustive(2, algs=(4, 7) if q else (0, 4, 5, 7)))
     if not q:
@@ -129,6 +129,7 @@ def check_c11(pid, tier, replay):
     rnd = [gen_level.random_history(rng, 50 if q else 90) for _ in range(400 if q else 4000)]
     # interleave the expensive sweep histories with the cheap ones so that the chunks are balanced
     cheap = beh + bound + ex + rnd
+    random.Random(vc.seed() * 31 + 11).shuffle(cheap)
     histories = []
     step = max(1, len(cheap) // max(1, len(sweeps)))
     ci = 0
